@@ -650,11 +650,20 @@ def loops_in(body):
                 continue
         depth = 0
         j = mt.end()
+        in_contract = False
         while j < len(m):
             ch = m[j]
+            if depth == 0 and ch in "ide" and re.match(r"(invariant|decreases|ensures)\b", m[j:j + 10]) and not m[j - 1].isalnum() and m[j - 1] != "_":
+                # spliced loop contract: its clauses may contain `{ .. }` blocks; every clause ends with `,`, so the
+                # loop body is the first `{` at depth 0 that follows a comma
+                in_contract = True
             if ch in "([":
                 depth += 1
             elif ch in ")]":
+                depth -= 1
+            elif ch == "{" and in_contract and m[:j].rstrip()[-1:] != ",":
+                depth += 1
+            elif ch == "}" and in_contract:
                 depth -= 1
             elif ch == "{" and depth == 0:
                 res.append(j)
